@@ -10,5 +10,6 @@ INVARIANT OneTaskPerBlock
 INVARIANT LabelIsData
 INVARIANT BlockHoldsItsSlices
 INVARIANT Complete
+INVARIANT FinalIsAFunctionOfTheInput
 PROPERTY WriteOnce
 CHECK_DEADLOCK FALSE
